@@ -98,6 +98,20 @@ def pipe_k(rng):
     return round(rng.uniform(10.0, 20.0), 2)
 
 
+def fluid_temperature(rng, fluid):
+    """Design temperature of the fluid (C): the default 20, warm, cold, and - for the antifreeze mixtures, which is what
+    they exist for - below zero (all listed concentrations stay liquid down to -5 C)."""
+    if fluid[0] == "Water":
+        return rng.choice([20.0, 20.0, 1.0, 5.0, 12.0, 35.0])
+    return rng.choice([20.0, 20.0, -5.0, -3.0, -2.0, -1.0, 0.0, 5.0, 35.0, round(rng.uniform(-5.0, 10.0), 1)])
+
+
+def user_fluid(case):
+    """The fluid the USER specified (name, concentration, design temperature) as pygfunction's own Fluid - not the
+    package's GHEFluid: every reference value (mu, rho, k, cp, hence mass flow, h, R_conv, R_f') comes from here."""
+    return ghelib.independent_fluid({"fluid": (case["fluid"][0], case["fluid"][1]), "fluid_temp": case.get("fluid_temp", 20.0)})
+
+
 def gen_case(rng, i, force_kind=None):
     kind = force_kind or KINDS[i % 4 if i % 11 else rng.randrange(4)]
     dia = round(rng.choice([rng.uniform(0.075, 0.30), rng.uniform(0.09, 0.2), rng.choice([0.11, 0.127, 0.14, 0.15, 0.2])]), 4)
@@ -107,6 +121,7 @@ def gen_case(rng, i, force_kind=None):
          "flow": round(10 ** rng.uniform(math.log10(0.015), math.log10(2.0)), 4),      # L/s per borehole
          "k_g": round(rng.uniform(0.4, 3.0), 3), "k_s": round(rng.uniform(0.5, 5.0), 3),
          "rough": rng.choice([1.0e-6, 1.0e-6, 1.5e-6, 1.0e-5])}
+    c["fluid_temp"] = fluid_temperature(rng, c["fluid"])
     if kind == "COAXIAL":
         roo = rb * rng.uniform(0.40, 0.985)
         roi = roo * (1.0 - wall_ratio(rng))
@@ -139,6 +154,7 @@ def gen_change(rng, c):
         val = round(old * rng.choice([0.2, 0.5, 1.75, 3.0, 8.0]), 4)
     elif what == "fluid":
         val = list(rng.choice([f for f in FLUIDS if list(f) != list(c["fluid"])]))
+        val.append(fluid_temperature(rng, val))
     elif what == "rough":
         val = rng.choice([v for v in (1.0e-6, 1.0e-5, 1.0e-4, 5.0e-4) if v != c["rough"]])
     elif what == "H":
@@ -155,6 +171,7 @@ def corpus_histories():
     return [{"initial": du, "change": {"what": "pipe_k", "value": 0.7}},
             {"initial": cx, "change": {"what": "pipe_k", "value": 1.2}},
             {"initial": du, "change": {"what": "fluid", "value": ["PropyleneGlycol", 20.0]}},
+            {"initial": du, "change": {"what": "fluid", "value": ["EthyleneGlycol", 30.0, -5.0]}},
             {"initial": dict(du, kind="DOUBLEUTUBESERIES"), "change": {"what": "rough", "value": 5.0e-4}},
             {"initial": du, "change": {"what": "H", "value": 150.0}},
             {"initial": cx, "change": {"what": "H", "value": 60.0}},
@@ -175,7 +192,7 @@ def gen_sequence(rng, i):
     kind = i % 3
     if kind == 0:       # same exchanger at a turbulent and at a laminar flow rate, both orders
         a = gen_case(rng, 0, rng.choice(["DOUBLEUTUBEPARALLEL", "DOUBLEUTUBESERIES"]))
-        a["fluid"] = ["Water", 0.0]
+        a["fluid"], a["fluid_temp"] = ["Water", 0.0], 20.0
         hi, lo = dict(a, flow=round(rng.uniform(1.0, 2.5), 3)), dict(a, flow=round(rng.uniform(0.04, 0.12), 4))
         return [hi, lo] if i % 2 else [lo, hi]
     if kind == 1:       # plastic double-U and a coaxial with a metal outer pipe, both orders
@@ -199,6 +216,13 @@ def corpus_cases():
            dict(cx, kind="COAXIAL", flow=0.05, name="F10-low-flow-coaxial"),
            dict(du, kind="DOUBLEUTUBEPARALLEL", flow=0.02, name="laminar-double-u"),
            dict(du, kind="SINGLEUTUBE", flow=0.5, name="single-u-identity"),
+           # antifreeze at a sub-zero design temperature (and cold / warm water)
+           dict(du, kind="DOUBLEUTUBEPARALLEL", flow=0.5, fluid=["PropyleneGlycol", 20.0], fluid_temp=-2.0, name="pg20-at-minus2-double-u-parallel"),
+           dict(du, kind="DOUBLEUTUBESERIES", flow=0.4, fluid=["EthyleneGlycol", 30.0], fluid_temp=-5.0, name="eg30-at-minus5-double-u-series"),
+           dict(cx, kind="COAXIAL", flow=0.8, fluid=["MethylAlcohol", 15.0], fluid_temp=-3.0, name="ma15-at-minus3-coaxial"),
+           dict(du, kind="DOUBLEUTUBEPARALLEL", flow=0.3, fluid=["EthylAlcohol", 20.0], fluid_temp=-4.0, name="ea20-at-minus4-double-u-parallel"),
+           dict(du, kind="DOUBLEUTUBEPARALLEL", flow=0.5, fluid_temp=5.0, name="water-at-5-double-u"),
+           dict(cx, kind="COAXIAL", flow=0.8, fluid_temp=35.0, name="water-at-35-coaxial"),
            # thin-walled tubing (0.6 mm wall: the equal-volume wall is 0.85 mm) and different inner/outer pipe materials
            dict(base, kind="DOUBLEUTUBEPARALLEL", flow=0.5, r_out=0.0312 / 2, r_in=0.0300 / 2, s=0.0200, k_p=0.4, name="thin-wall-30-31.2-double-u"),
            dict(base, kind="DOUBLEUTUBESERIES", flow=0.4, r_out=0.0272 / 2, r_in=0.0260 / 2, s=0.0250, k_p=15.0, name="thin-wall-stainless-double-u"),
@@ -265,7 +289,7 @@ def build_exchanger(case):
     from ghedesigner.media import GHEFluid, Grout, Pipe, Soil
 
     kind = case["kind"]
-    fluid = GHEFluid(fluid_str=case["fluid"][0], percent=case["fluid"][1])
+    fluid = GHEFluid(fluid_str=case["fluid"][0], percent=case["fluid"][1], temperature=case.get("fluid_temp", 20.0))
     grout = Grout(case["k_g"], 3901000.0)
     soil = Soil(case["k_s"], 2343493.0, 18.3)
     bh = GHEBorehole(case["H"], case["D"], case["dia"] / 2.0, x=0.0, y=0.0)
@@ -276,7 +300,8 @@ def build_exchanger(case):
         pipe = Pipe(Pipe.place_pipes(case["s"], case["r_out"], n_u), case["r_in"], case["r_out"], case["s"],
                     case["rough"], case["k_p"], 1542000.0)
     with ghelib.quiet():
-        return B.get_bhe_object(BHPipeType[kind], case_mass_flow(case, fluid.rho), fluid, bh, pipe, grout, soil)
+        # the volumetric flow the user asked for, as a mass flow of the fluid the user asked for
+        return B.get_bhe_object(BHPipeType[kind], case_mass_flow(case, float(user_fluid(case).rho)), fluid, bh, pipe, grout, soil)
 
 
 def run_impl(case, bhe=None):
@@ -292,8 +317,9 @@ def run_impl(case, bhe=None):
     kind = case["kind"]
     out = {"impl_file": B.__file__}
     try:
-        # fluid properties for the oracle come from the case, not from the live object
-        fluid = GHEFluid(fluid_str=case["fluid"][0], percent=case["fluid"][1])
+        # fluid properties for the oracle come from the case's user-level specification through pygfunction's own Fluid,
+        # neither from the live object nor from the package's fluid class
+        fluid = user_fluid(case)
         m_flow = case_mass_flow(case, fluid.rho)
         out["fluid"] = [float(fluid.mu), float(fluid.rho), float(fluid.k), float(fluid.cp)]
         out["m_flow"] = float(m_flow)
@@ -452,8 +478,10 @@ def apply_change(bhe, case, change):
         bhe.pipe.k = [val, bhe.pipe.k[1]]
         c1["k_p"] = [val, case["k_p"][1]]
     elif what == "fluid":
-        bhe.fluid = GHEFluid(fluid_str=val[0], percent=val[1])
-        c1["fluid"] = list(val)
+        t_new = val[2] if len(val) > 2 else 20.0
+        bhe.fluid = GHEFluid(fluid_str=val[0], percent=val[1], temperature=t_new)
+        c1["fluid"] = list(val[:2])
+        c1["fluid_temp"] = t_new
     elif what == "rough":
         bhe.pipe.roughness = val
         if coax:
@@ -496,6 +524,64 @@ def _sequence_worker(seq):
     """Different exchangers converted one after the other in ONE process."""
     try:
         return [run_impl(c) for c in seq]
+    except Exception as e:
+        import traceback
+        return {"harness_error": f"{type(e).__name__}: {e}", "tb": traceback.format_exc()[-1500:]}
+
+
+# ----------------------------------------------------------------------------------------- manager-level route
+STD_DU = {"r_out": 0.04216 / 2, "r_in": 0.03404 / 2, "s": 0.01856}                       # what the job hands to the manager's setters
+STD_CX = {"r_inner": [0.0442 / 2, 0.050 / 2], "r_outer": [0.0974 / 2, 0.110 / 2]}
+
+
+def manager_jobs(rng, n):
+    """User-level design projects: design method x flow specification x exchanger kind x fluid."""
+    geoms = [("RECTANGLE", 20.0, 20.0, 5.0, 10.0), ("NEARSQUARE", 5.0, 20.0), ("RECTANGLE", 30.0, 15.0, 5.0, 7.5), ("NEARSQUARE", 6.0, 24.0)]
+    pipes = ["DOUBLEUTUBEPARALLEL", "COAXIAL", "DOUBLEUTUBESERIES"]
+    jobs = []
+    for i in range(n):
+        ft = "SYSTEM" if i % 2 == 0 else "BOREHOLE"
+        fluid = list(FLUIDS[(i * 3) % len(FLUIDS)])
+        jobs.append({"geom": list(geoms[(i // 2) % len(geoms)]), "flow_type": ft, "pipe": pipes[(i + i // 4) % 3], "fluid": fluid,
+                     "fluid_temp": fluid_temperature(rng, fluid) if i >= 4 else 20.0,
+                     "flow": round(rng.uniform(3.0, 8.0), 2) if ft == "SYSTEM" else round(rng.uniform(0.3, 0.9), 3),
+                     "k_p": round(rng.uniform(0.3, 0.6), 3), "k_g": round(rng.uniform(0.8, 2.0), 3), "k_s": round(rng.uniform(1.5, 3.0), 3),
+                     "scale": round(rng.uniform(0.15, 0.35), 3)})
+    return jobs
+
+
+def _manager_worker(job):
+    """GHEManager -> find_design() for a double-U / coaxial project; then the equivalent tube the short-time model was
+    given (`ghe.bhe_eq`) is judged against the USER-level inputs and the per-borehole flow F (borehole) or F/N (system)."""
+    try:
+        phys = {"fluid": tuple(job["fluid"]), "fluid_temp": job["fluid_temp"], "grout": (job["k_g"], 3901000.0), "soil": (job["k_s"], 2343493.0, 18.3),
+                "pipe_k": job["k_p"], "pipe_rho_cp": 1542000.0, "borehole": (100.0, 2.0, 0.14), "flow": job["flow"]}
+        cfg = {"phys": phys, "pipe": job["pipe"], "loads": [x * job["scale"] for x in ghelib.atlanta_loads()], "months": 12, "max_eft": 35.0,
+               "min_eft": -8.0 if job["fluid"][0] != "Water" else 3.0, "max_h": 135.0, "min_h": 60.0, "geom": tuple(job["geom"]), "flow": job["flow"],
+               "flow_type": job["flow_type"], "cont": True}
+        with ghelib.quiet():
+            m = ghelib.build_manager(cfg)
+            try:
+                m.find_design()
+            except ValueError as e:
+                return {"search_failed": str(e)[:100]}
+        ghe = m._search.ghe
+        n_bh = len(ghe.gFunction.bore_locations)
+        eq = ghe.bhe_eq
+        per_bh = job["flow"] if job["flow_type"] == "BOREHOLE" else job["flow"] / n_bh
+        case = {"kind": job["pipe"], "dia": 0.14, "H": float(ghe.bhe.b.H), "D": 2.0, "fluid": list(job["fluid"]), "fluid_temp": job["fluid_temp"],
+                "flow": per_bh, "k_g": job["k_g"], "k_s": job["k_s"], "rough": 1.0e-6}
+        if job["pipe"] == "COAXIAL":
+            case.update(r_inner=list(STD_CX["r_inner"]), r_outer=list(STD_CX["r_outer"]), k_p=[job["k_p"], job["k_p"]])
+        else:
+            case.update(STD_DU, k_p=job["k_p"])
+        ref = run_impl(case)          # fresh exchanger built from the user-level inputs + its independent oracle
+        got = {"r_in": float(eq.pipe.r_in), "r_out": float(eq.pipe.r_out), "k_p": float(eq.pipe.k), "k_g": float(eq.grout.k), "r_b": float(eq.b.r_b),
+               "s": float(eq.pipe.s), "R_fp": float(eq.R_fp), "R_f": float(eq.R_f), "h_f": float(eq.h_f), "H": float(eq.b.H), "D": float(eq.b.D),
+               "m_flow": float(eq.m_flow_borehole), "rough": float(eq.pipe.roughness)}
+        return {"case": case, "n_bh": n_bh, "ref": ref, "single": got, "rb_single": float(eq.calc_effective_borehole_resistance()),
+                "rb_orig": float(ghe.bhe.calc_effective_borehole_resistance()), "m_flow_bhe": float(ghe.bhe.m_flow_borehole),
+                "same_tube_in_radial_model": ghe.radial_numerical.single_u_tube is eq, "search": type(m._search).__name__}
     except Exception as e:
         import traceback
         return {"harness_error": f"{type(e).__name__}: {e}", "tb": traceback.format_exc()[-1500:]}
@@ -651,7 +737,10 @@ def run(ctx: core.Ctx):
                 "each converted in a process of its own; call histories on ONE exchanger object (convert, change pipe k / fluid / roughness / "
                 "H / k_grout at unchanged flow, convert again: compared with a fresh conversion of the final state); sequences of 2-4 DIFFERENT "
                 "exchangers converted in ONE process (pipe-conductivity solutions > 10x apart in both orders: compared with fresh-process "
-                "conversions); distinct = distinct input dicts / histories / sequences; non-trivial = a double-U/coaxial conversion that ran "
+                "conversions); fluid design temperature -5..35 C (antifreeze below 0 C in ~1/3 of the cases), every reference property from "
+                "pygfunction's own Fluid for the user-level (name, %, T); manager route: GHEManager rectangle / near-square x borehole / system "
+                "flow x double-U / coaxial -> find_design -> ghe.bhe_eq judged against the user inputs and the per-borehole flow F or F/N; "
+                "distinct = distinct input dicts / histories / sequences; non-trivial = a double-U/coaxial conversion that ran "
                 "both root solves, a history, a sequence (single-U identity and solve_root sign-pattern cases are counted in the histogram)")
     ctx.trusted_base += [
         "translator plug-in translate/gen_equivtube.py (constants + 3 structural facts read from borehole_heat_exchangers.py / utilities.py; it also "
@@ -733,7 +822,7 @@ def run(ctx: core.Ctx):
         # ./check C15 --replay replays/C15-<seed>-<n>.json : run exactly that exchanger
         j = json.loads(open(ctx.replay).read())
         j = j.get("replay", j)
-        if "history" in j or "sequence" in j:
+        if "history" in j or "sequence" in j or "manager_job" in j:
             replay_job = j
         j = j.get("case", j)
         if replay_job is not None:
@@ -780,6 +869,12 @@ def run(ctx: core.Ctx):
         else:
             hist_ref.append(None)
     seq_res = fresh_map(_sequence_worker, seq_jobs)
+    mgr_jobs = []
+    if replay_job is not None and "manager_job" in replay_job:
+        mgr_jobs = [replay_job["manager_job"]]
+    elif not ctx.replay:
+        mgr_jobs = manager_jobs(rng, 8 if quick else 48)
+    mgr_res = fresh_map(_manager_worker, mgr_jobs)
     res = fresh_map(_worker, cases)
 
     # stage 1: volumes
@@ -798,6 +893,8 @@ def run(ctx: core.Ctx):
         re_ = r.get("re", 0.0)
         ctx.count("flow-regime:" + ("laminar(Re<2300)" if re_ < 2300 else "transitional(2300-4000)" if re_ < 4000 else "turbulent(Re>=4000)"))
         ctx.count("fluid:" + c["fluid"][0])
+        ft_ = c.get("fluid_temp", 20.0)
+        ctx.count("fluid-temp:" + ("antifreeze below 0 C" if ft_ < 0 else "0-10 C" if ft_ <= 10 else "20 C" if ft_ == 20 else "other"))
         if c["kind"] == "SINGLEUTUBE":
             ctx.case(json.dumps(c, sort_keys=True), False, {"case": c, "identity": r["identity"]} if i < n_corpus else None)
             ctx.count("single-u-identity-cases")
@@ -1102,6 +1199,43 @@ def run(ctx: core.Ctx):
                 if "sequence-correspondence" not in ctx.broken:
                     ctx.broken.append("sequence-correspondence")
                     ctx.extra["sequence-correspondence_first"] = {"sequence": sq, "position": pos_, "differences": d[:6]}
+
+    # ------------------------------------------------------------------ manager-level route (user inputs -> find_design -> ghe.bhe_eq)
+    for mj, mr in zip(mgr_jobs, mgr_res):
+        if "harness_error" in mr:
+            ctx.infra(f"manager job failed: {mr['harness_error']}")
+            continue
+        tag = f"{mj['geom'][0]}:{mj['flow_type'].lower()}-flow"
+        if "search_failed" in mr:
+            ctx.count("manager-route:search-failed")
+            continue
+        ctx.count(f"manager-route:{tag}:{mj['pipe']}")
+        ctx.case(("manager", json.dumps(mj, sort_keys=True)), True, {"manager_job": mj, "boreholes": mr["n_bh"], "R_fp_eq": mr["single"]["R_fp"]} if mj is mgr_jobs[0] else None)
+        ref = mr["ref"]
+        if "single" not in ref:
+            ctx.count("manager-route:reference-unavailable")
+            continue
+        r = dict(ref, single=dict(ref["single"], **mr["single"]), rb_single=mr["rb_single"], rb_orig=mr["rb_orig"])
+        d = [f"{k}: {mr['single'][k]!r} vs {ref['single'][k]!r}" for k in CMP_FIELDS if not close(mr["single"][k], ref["single"][k], 1e-9)]
+        if not close(mr["m_flow_bhe"], ref["m_flow"], 1e-12):
+            d.append(f"exchanger mass flow {mr['m_flow_bhe']!r} vs user-level per-borehole flow {ref['m_flow']!r}")
+        if not mr["same_tube_in_radial_model"]:
+            d.append("radial_numerical.single_u_tube is not ghe.bhe_eq")
+        if not d:
+            ctx.count("manager-route:bhe_eq == conversion of the exchanger the user specified")
+            continue
+        replay = {"case": mr["case"], "manager_job": mj, "boreholes": mr["n_bh"], "bhe_eq": mr["single"],
+                  "conversion_of_specified_exchanger": {k: v for k, v in ref.items() if k != "calls"}, "differences": d}
+        fails = bulk_failures(mr["case"], r, ref)
+        desc = (f"GHEManager {mj['geom'][0]} design, {mj['flow']} L/s {mj['flow_type'].lower()} flow, {mj['pipe']}, {mj['fluid']} at {mj['fluid_temp']} C -> "
+                f"{mr['n_bh']} boreholes: ghe.bhe_eq differs from the conversion of the exchanger the user specified ({'; '.join(d[:3])})")
+        if fails:
+            ctx.finding(f"manager-route-equivalent-tube:{tag}", desc + " and violates: " + "; ".join(fails[:3]), replay)
+        else:
+            ctx.disagreements_checked += 1
+            if "manager-correspondence" not in ctx.broken:
+                ctx.broken.append("manager-correspondence")
+                ctx.extra["manager-correspondence_first"] = {"manager_job": mj, "differences": d[:6]}
 
     # Rat instantiation of the enlargement rule (exact) on every case
     enl = [(i, res[i]["_enl_line"]) for i in idx_multi if "_enl_line" in res[i]]
